@@ -486,5 +486,8 @@ fn main() {
         t
     });
     let _ = BigInt::zero();
+    // the whole exploration once more against the subject built WITHOUT its `std` feature (to_f64/to_f32 take the String-based path and libm::pow instead of the stack buffer and f64::powi)
+    run.bound("build_variants", "std (this process) + no_std (child process, same domain)");
+    run.variant("no_std");
     run.finish();
 }
